@@ -43,6 +43,7 @@ MinVal == CHOOSE v \in Vals : \A u \in Vals : v <= u
 \* ways to consume the rest of a cursor that has `m` items left: plain (none), nth inside the
 \* range, nth just beyond / far beyond the end, last, fold
 FinsFor(m) == {<<"none", 0>>, <<"last", 0>>, <<"fold", 0>>} \cup {<<"nth", j>> : j \in {0, 1, m, m + 2}}
+              \cup {<<"any", 0>>, <<"any", m>>, <<"all", 1>>, <<"position", 1>>, <<"find", 1>>, <<"find", m>>}
 
 CoreOps(ts) ==
   {[name |-> nm, k |-> ArgK(1, c, r), v |-> ArgV(1, v)] :
